@@ -511,7 +511,10 @@ def build(suite, info):
 
 
 def total_assignment(rng, n):
-    return [v if rng.random() < 0.5 else -v for v in range(1, n + 1)]
+    a = [v if rng.random() < 0.5 else -v for v in range(1, n + 1)]
+    if rng.random() < 0.4:
+        rng.shuffle(a)      # the literals of a planted assignment come in no particular order (seeded change C13-6)
+    return a
 
 
 def planted_sets(rng, n):
